@@ -401,3 +401,24 @@ Proof.
   intros g c Hg Hm Hs. pose proof (sweep_all _ dbmgmt_sweep g c Hg) as H.
   unfold chk_dbmgmt in H. rewrite Hm in H. cbv beta in H. rewrite Hs in H. cbn in H. apply not_through. apply negb_true_iff. exact H.
 Qed.
+
+(* ------------------------------------------------------------------ 7. streams serving several requests *)
+
+Lemma multi_request_streams_gated_per_request :
+  forallb (fun g => negb (multi_request g) || per_request g) gates = true.
+Proof. vm_compute. reflexivity. Qed.
+
+Lemma stream_requests_reauthorized :
+  forall g c_open c_now, In g gates -> multi_request g = true ->
+    per_request g = true /\ decide_next g c_open c_now = decide g c_now.
+Proof.
+  intros g c0 c Hg Hm. pose proof multi_request_streams_gated_per_request as H.
+  rewrite forallb_forall in H. specialize (H g Hg). rewrite Hm in H. cbn in H.
+  split; [exact H|]. unfold decide_next. rewrite H. reflexivity.
+Qed.
+
+Example multi_request_premises_satisfiable : exists g, In g gates /\ multi_request g = true.
+Proof.
+  eexists. split; [apply (find_gate_in "ImmuService" "streamExportTx"); vm_compute; reflexivity|].
+  vm_compute. reflexivity.
+Qed.
